@@ -102,6 +102,21 @@ func tailStr(s string, n int) string {
 	return s
 }
 
+// envVariant returns one of three process environments: inherited, minimal (as under `env -i`), hostile
+// (Turkish locale, far-away time zone, unusable TMPDIR/HOME, aggressive GC).
+func envVariant(k int, extra ...string) []string {
+	var env []string
+	switch k % 3 {
+	case 0:
+		env = os.Environ()
+	case 1:
+		env = []string{"PATH=" + os.Getenv("PATH")}
+	case 2:
+		env = append(os.Environ(), "LANG=tr_TR.UTF-8", "LC_ALL=tr_TR.UTF-8", "LANGUAGE=tr", "TZ=Pacific/Kiritimati", "TMPDIR=/nonexistent/tmp", "HOME=/nonexistent/home", "GOGC=1", "COLUMNS=1", "NO_COLOR=1", "DEBUG=1", "VERBOSE=1", "CI=true")
+	}
+	return append(env, extra...)
+}
+
 // buildTool builds a tool of the repository into dir.
 func buildTool(name, dir string, race bool) (string, error) {
 	out := filepath.Join(dir, name)
@@ -652,10 +667,19 @@ func runC13(c *ev.Ctx) {
 			exe = binRace
 		}
 		argv := []string{exe, "-i", d.Root, "-o", report, "-n", fmt.Sprint(bc.n)}
+		switch i % 4 { // flag order and spelling must not matter
+		case 1:
+			argv = []string{exe, "-n", fmt.Sprint(bc.n), "-o", report, "-i", d.Root + "/"}
+		case 2:
+			argv = []string{exe, "--o=" + report, "--n=" + fmt.Sprint(bc.n), "--i=" + d.Root}
+		case 3:
+			rel, _ := filepath.Rel(root, d.Root)
+			argv = []string{exe, "-o", "out/report.csv", "-i", "./" + rel + "/.", "-n", fmt.Sprint(bc.n)}
+		}
 		if bc.strace {
 			argv = append([]string{"strace", "-f", "-o", "/dev/null", "-e", "trace=write", "-P", report, "-e", "inject=write:delay_exit=3000:when=2+"}, argv...)
 		}
-		env := append(os.Environ(), fmt.Sprintf("GOMAXPROCS=%d", bc.procs), "GOTRACEBACK=all")
+		env := envVariant(i/2, fmt.Sprintf("GOMAXPROCS=%d", bc.procs), "GOTRACEBACK=all")
 		if bc.race {
 			env = append(env, "GORACE=halt_on_error=0 log_path="+filepath.Join(work, fmt.Sprintf("race-bin-%d", i)))
 		}
@@ -753,6 +777,16 @@ func evalC20(cs c20Case, i int, work, bin, binRace, det string) (probs []string,
 		wantDir = oArg
 	case "trail/":
 		wantDir = filepath.Join(cwd, "trail")
+	case "SYMREL", "SYMABS":
+		// -o names a symbolic link to a directory (relative / absolute target), not in the working directory
+		_ = os.MkdirAll(filepath.Join(cwd, "disk", "store"), 0o755)
+		target := "store"
+		if cs.Out == "SYMABS" {
+			target = filepath.Join(cwd, "disk", "store")
+		}
+		_ = os.Symlink(target, filepath.Join(cwd, "disk", "out"))
+		oArg = filepath.Join("disk", "out")
+		wantDir = filepath.Join(cwd, "disk", "store")
 	default:
 		wantDir = filepath.Join(cwd, filepath.Clean(cs.Out))
 	}
@@ -780,7 +814,7 @@ func evalC20(cs c20Case, i int, work, bin, binRace, det string) (probs []string,
 	if cs.CPUs > 0 {
 		argv = append([]string{"taskset", "-c", fmt.Sprintf("0-%d", cs.CPUs-1)}, argv...)
 	}
-	env := append(os.Environ(), "GOTRACEBACK=all")
+	env := envVariant(i, "GOTRACEBACK=all")
 	if cs.Procs > 0 {
 		env = append(env, fmt.Sprintf("GOMAXPROCS=%d", cs.Procs))
 	}
@@ -811,8 +845,8 @@ func evalC20(cs c20Case, i int, work, bin, binRace, det string) (probs []string,
 		found := map[string]int64{}
 		contents := map[string]string{}
 		_ = filepath.Walk(cwd, func(p string, fi os.FileInfo, err error) error {
-			if err != nil || fi.IsDir() {
-				return nil
+			if err != nil || fi.IsDir() || fi.Mode()&os.ModeSymlink != 0 {
+				return nil // (the only symbolic link is the one this harness created for the SYM* shapes)
 			}
 			rel, _ := filepath.Rel(wantDir, p)
 			if strings.HasPrefix(rel, "..") {
@@ -917,7 +951,7 @@ func runC20(c *ev.Ctx) {
 		return
 	}
 	haveStrace := straceOK()
-	outs := []string{"", "out2e4", "./a/b/c", "ABS", "pre", "trail/", "my%20data%20set", "sp ace/näme-测试", "50%/25%d", "x/../y//z", "-dash"}
+	outs := []string{"", "out2e4", "./a/b/c", "ABS", "pre", "trail/", "my%20data%20set", "sp ace/näme-测试", "50%/25%d", "x/../y//z", "-dash", "SYMREL", "SYMABS"}
 	var cases []c20Case
 	r := gen.NewRng(gen.Mix(seed, 2020))
 	ss := []int{1, 2, 3, 17, 64, 300}
